@@ -45,6 +45,12 @@ def main():
         not_applicable=na,
         notes="See DESIGN.md. Known findings: known_findings.json.")
     json.dump(man, open(os.path.join(VERIF, "MANIFEST.json"), "w"), indent=1)
+    kf = dict(findings=[], fixed=[])
+    for fp in sorted(glob.glob(os.path.join(VERIF, "props", "*", "findings.json"))):
+        d = json.load(open(fp))
+        kf["findings"] += d.get("findings", [])
+        kf["fixed"] += d.get("fixed", [])
+    json.dump(kf, open(os.path.join(VERIF, "known_findings.json"), "w"), indent=1)
     print("claimed:", claimed)
 
 
